@@ -322,6 +322,77 @@ def check_orchestration(tier, seed):
     return {"bound": "F {0,0.25} x {cold, 3 temperatures}, 4 steps, all move calls recorded", "evaluations": ev, "distinct_nontrivial": ev, "failures": fails, "samples": [{"recorded_calls": ev}], "exhaustive": False}
 
 
+def check_option_functions(tier, seed):
+    """The ASSUMED contracts of the structural label / option helpers, on the real functions: every label matrix
+    with entries in [0, P) for P <= 3 (quick) / 4 (thorough) plus seeded ones up to ploidy 6: option arrays have shape
+    (n, P, 2) with n == the matching n_options, entries stay labels, every option differs from the current labels,
+    has at least one way back (n_options(option) >= 1) and lists the current labels among its own options;
+    haplotype_segment_labels: two haplotypes share a label iff they are equal on that segment."""
+    rng = np.random.default_rng(seed + 101)
+    ev = nontriv = 0
+    fails = []
+
+    def bad(key, fn, inp, obs, exp, how=""):
+        if len(fails) < 5 and not any(f["key"] == key for f in fails):
+            fails.append({"key": key, "check": fn, "input": inp, "observed": obs, "expected": exp, "how": how})
+
+    def rows(L):
+        return sorted(map(tuple, L.tolist()))
+
+    def mats():
+        for P in ((1, 2, 3) if tier == "quick" else (1, 2, 3, 4)):
+            for flat in itertools.product(range(P), repeat=2 * P):
+                yield np.array(flat, dtype=np.int8).reshape(P, 2)
+        for _ in range(300 if tier == "quick" else 3000):
+            P = int(rng.integers(4, 7))
+            yield rng.integers(0, P, size=(P, 2)).astype(np.int8)
+
+    for L in mats():
+        P = len(L)
+        for name, fo, fn in (("recombination", structural.recombination_step_options, structural.recombination_step_n_options), ("dosage", structural.dosage_step_options, structural.dosage_step_n_options)):
+            opts = fo(L)
+            n = int(fn(L))
+            ev += 1
+            nontriv += n > 0
+            inp = {"labels": L.tolist(), "step": name}
+            if opts.shape != (n, P, 2):
+                bad("rt/options_shape_vs_n_options", "mchap.assemble.structural.%s_step_options" % name, inp, list(opts.shape), [n, P, 2], "len(options) == n_options")
+                continue
+            if n and (opts.min() < 0 or opts.max() >= P):
+                bad("rt/options_entries_are_labels", "mchap.assemble.structural.%s_step_options" % name, inp, [int(opts.min()), int(opts.max())], [0, P - 1])
+            for o in opts:
+                if rows(o) == rows(L):
+                    bad("rt/option_is_a_change", "mchap.assemble.structural.%s_step_options" % name, inp, o.tolist(), "a genotype different from the current one")
+                if not np.array_equal(o[:, 1], L[:, 1]):
+                    bad("rt/option_keeps_outside_segment", "mchap.assemble.structural.%s_step_options" % name, inp, o.tolist(), "column 1 unchanged")
+                nb = int(fn(o))
+                if nb < 1:
+                    bad("rt/option_has_a_way_back", "mchap.assemble.structural.%s_step_n_options" % name, dict(inp, option=o.tolist()), nb, ">= 1", "reverse proposal count of an option")
+                back = fo(o)
+                if not any(rows(b) == rows(L) for b in back):
+                    bad("rt/option_neighbourhood_symmetric", "mchap.assemble.structural.%s_step_options" % name, dict(inp, option=o.tolist()), [b.tolist() for b in back][:4], "the current labels among the options of the option")
+    # haplotype_segment_labels
+    for _ in range(400 if tier == "quick" else 4000):
+        P = int(rng.integers(1, 7))
+        N = int(rng.integers(1, 6))
+        G = rng.integers(0, 2, size=(P, N)).astype(np.int8)
+        lo = int(rng.integers(0, N + 1))
+        hi = int(rng.integers(lo, N + 1))
+        for interval in (None, np.array([lo, hi])):
+            Lb = structural.haplotype_segment_labels(G, interval)
+            ev += 1
+            a, b = (0, N) if interval is None else (lo, hi)
+            ok = Lb.shape == (P, 2) and Lb.min() >= 0 and Lb.max() < P
+            for x in range(P):
+                for y in range(P):
+                    same_in = bool((G[x, a:b] == G[y, a:b]).all())
+                    same_out = bool((np.delete(G[x], np.s_[a:b]) == np.delete(G[y], np.s_[a:b])).all())
+                    ok = ok and ((Lb[x, 0] == Lb[y, 0]) == same_in) and ((Lb[x, 1] == Lb[y, 1]) == same_out)
+            if not ok:
+                bad("rt/segment_labels", "mchap.assemble.structural.haplotype_segment_labels", {"genotype": G.tolist(), "interval": None if interval is None else interval.tolist()}, Lb.tolist(), "equal label <=> equal segment, labels in [0, ploidy)")
+    return {"bound": "all label matrices over [0,P) for P <= %d + seeded up to ploidy 6; seeded genotypes x intervals" % (3 if tier == "quick" else 4), "evaluations": ev, "distinct_nontrivial": int(nontriv), "failures": fails, "samples": [], "exhaustive": False}
+
+
 def _first_failure(chk):
     def f(model, seed, given):
         r = chk("quick", seed)
@@ -333,11 +404,16 @@ def _first_failure(chk):
     return f
 
 
-CHECKS = [check_base_step_detailed_balance, check_interval_step_detailed_balance, check_chain_swap, check_orchestration]
+CHECKS = [check_base_step_detailed_balance, check_interval_step_detailed_balance, check_chain_swap, check_orchestration, check_option_functions]
 REPLAY = {
     "mchap.assemble.mutation.base_step": _first_failure(check_base_step_detailed_balance),
     "mchap.assemble.structural.interval_step": _first_failure(check_interval_step_detailed_balance),
     "mchap.assemble.tempering.chain_swap_acceptance": _first_failure(check_chain_swap),
     "mchap.assemble.tempering.chain_swap_step": _first_failure(check_chain_swap),
     "mchap.assemble.mcmc._denovo_assembler": _first_failure(check_orchestration),
+    "mchap.assemble.structural.recombination_step_options": _first_failure(check_option_functions),
+    "mchap.assemble.structural.dosage_step_options": _first_failure(check_option_functions),
+    "mchap.assemble.structural.recombination_step_n_options": _first_failure(check_option_functions),
+    "mchap.assemble.structural.dosage_step_n_options": _first_failure(check_option_functions),
+    "mchap.assemble.structural.haplotype_segment_labels": _first_failure(check_option_functions),
 }
